@@ -12,7 +12,8 @@ Three layers, all run on every check:
         channel), the reshuffle permutation
         lists (spy on Qobj.permute; incl. the private Compound branch),
         tensor() of square and rectangular factors (left-nested loop and Kronecker
-        model), the kron kernels on pairs (kron_csr entry by entry)
+        model), the kron kernels on pairs (kron_csr entry by entry), the positions
+        tensor_contract hands to _tensor_contract_single (spy, all Qobj types)
      and a tiny translator (T) re-reads `contract_at` of
      tensor._tensor_contract_single and checks it is the modelled expression
   3. implementation-level oracle: NumPy reshape/transpose/einsum reference for
@@ -632,6 +633,78 @@ def corr_cases(dist, rng, scale):
                       "info": {"dims": d, "idx": idx, "matrix": M, "U": U}})
         bump("subsys_one")
 
+    # ---- L. tensor_contract: the positions handed to _tensor_contract_single
+    #         (spy), all Qobj types; model = contract_relabel after the tensor perm
+    import importlib
+    _qt = importlib.import_module("qutip.core.tensor")
+    from qutip.core.dimensions import (flatten as _flat, unflatten as _unfl,
+                                       enumerate_flat as _enum, deep_remove as _drm)
+    for _ in range(15 * scale):
+        t = rng.choice(["oper", "ket", "super", "operket"])
+        pool2 = (1, 2, 2, 3)
+        if t in ("super", "operket"):
+            while True:
+                a_ = [rng.choice(pool2) for _ in range(rng.randint(1, 2))]
+                b_ = [rng.choice(pool2) for _ in range(rng.randint(1, 2))]
+                if (prod(a_) <= 4 and prod(b_) <= 4 and not all(x == 1 for x in a_)
+                        and not all(x == 1 for x in b_)):
+                    break
+            fl = a_ + a_
+            stl_e = "steps_super %s %s" % (cnats(a_), cnats(a_))
+            if t == "super":
+                fr, str_e, qdims = b_ + b_, "steps_super %s %s" % (cnats(b_), cnats(b_)), [[a_, a_], [b_, b_]]
+            else:
+                fr, str_e, qdims = [1], "steps [1]", [[a_, a_], [1]]
+        else:
+            fl = rand_dims(rng, 3, 12)
+            fr = rand_dims(rng, 3, 12) if t == "oper" else [1]
+            if all(x == 1 for x in fl):
+                fl = [2]
+            if all(x == 1 for x in fr):
+                fr = [1]
+            stl_e, str_e, qdims = "steps %s" % cnats(fl), "steps %s" % cnats(fr), [fl, fr]
+        flat = fl + fr
+        n = len(flat)
+        cand = [(i, j) for i in range(n) for j in range(i + 1, n) if flat[i] == flat[j]]
+        rng.shuffle(cand)
+        used, pairs = set(), []
+        for i, j in cand:
+            if i in used or j in used or rng.random() < 0.4:
+                continue
+            pairs.append((i, j) if rng.random() < 0.5 else (j, i))
+            used |= {i, j}
+        if not pairs:
+            continue
+        rec = []
+        orig = _qt._tensor_contract_single
+
+        def spy(arr, i, j, _rec=rec, _orig=orig):
+            _rec.append((int(i), int(j)))
+            return _orig(arr, i, j)
+        q = Qobj(np.zeros((prod(fl), prod(fr))), dims=qdims)
+        if q.dims != qdims:
+            continue
+        note_inflight({"op": "tensor_contract_positions", "params": {"dims": qdims, "pairs": pairs}})
+        _qt._tensor_contract_single = spy
+        try:
+            try:
+                qutip.tensor_contract(q, *pairs)
+            except Exception:
+                pass            # the final Qobj may be refused; the calls were made
+        finally:
+            _qt._tensor_contract_single = orig
+        if len(rec) != len(pairs):
+            continue
+        impl = ("ok", [list(x) for x in rec])
+        expr = ("contract_relabel (seq 0 %d) (map (fun p => (nth (fst p) (get_tensor_perm (%s) (%s) %s %s) 0, "
+                "nth (snd p) (get_tensor_perm (%s) (%s) %s %s) 0)) %s)"
+                % (n, stl_e, str_e, cnats(fl), cnats(fr), stl_e, str_e, cnats(fl), cnats(fr),
+                   clist(pairs, lambda p: "(%d, %d)" % p)))
+        cases.append({"kind": "contract_positions", "expr": expr, "impl": impl,
+                      "nontrivial": len(pairs) >= 1 and n >= 3,
+                      "info": {"dims": qdims, "pairs": [list(x) for x in pairs]}})
+        bump("contract_positions:" + t)
+
     # ---- F. tensor(): the left-nested loop (tensor_data) and the right-nested
     #         Kronecker product (kron_rc), rectangular factors included
     for _ in range(12 * scale):
@@ -729,6 +802,8 @@ def compare_case(c, val):
         return impl[0] == "ok" and list(val) == impl[1]
     if k == "kron":
         return impl[0] == "ok" and gmat(val[0]) == impl[1] and gmat(val[1]) == impl[1]
+    if k == "contract_positions":
+        return impl[0] == "ok" and [list(x) for x in val] == impl[1]
     if k == "kron2":
         return impl[0] == "ok" and gmat(val) == impl[1]
     if k == "kron_csr":
@@ -1748,6 +1823,13 @@ def find_failing(kind, lst):
                           {"dims": info["dims"], "pairs": [list(x) for x in info["pairs"]],
                            "fmt": "Dense",
                            "matrix": [[[r * nc_ + cc, 0] for cc in range(nc_)]
+                                      for r in range(nr_)]}, None))
+        elif kind == "contract_positions":
+            from qutip.core.dimensions import flatten as _fl2
+            nr_, nc_ = prod(_fl2(info["dims"][0])), prod(_fl2(info["dims"][1]))
+            tries.append(("tensor_contract",
+                          {"dims": info["dims"], "pairs": info["pairs"], "fmt": "Dense",
+                           "matrix": [[[r * nc_ + cc, 1] for cc in range(nc_)]
                                       for r in range(nr_)]}, None))
         elif kind in ("kron2", "kron_csr"):
             tries.append(("kron_pair", info, kron_pair_oracle))
